@@ -191,7 +191,7 @@ theorem demo_closed : AdmissibleC demoPkg
       rcases hv with hv | hv <;> cases hv
   constructor
   · -- a summary setter
-    refine ⟨SumOp.str Gen.propAuthor "J\u00fcrgen".toList, ⟨by decide, ?_⟩, rfl⟩
+    refine Or.inl ⟨SumOp.str Gen.propAuthor "J\u00fcrgen".toList, ⟨by decide, ?_⟩, rfl⟩
     show (utf8Bytes _).length < bound
     have := MsiProofs.SummaryInv.utf8Bytes_le "J\u00fcrgen".toList
     have hl : "J\u00fcrgen".toList.length = 6 := by decide
